@@ -162,20 +162,28 @@ def readHex : (hi : Option Nat) → (len : Nat) → Bytes → Res Bytes
     integer part is at least 2^1024 − 2^970 (IEEE 754 binary64, round to nearest even) -/
 def floatOverflows (intDigits : Bytes) : Bool := digitsVal intDigits 0 ≥ 2 ^ 1024 - 2 ^ 970
 
+/-- the token without its sign -/
+def numBody (tok : Bytes) : Bytes :=
+  match tok with
+  | c :: r => if c == 43 || c == 45 then r else tok
+  | [] => []
+
+/-- `strconv.ParseFloat` on a token of sign, digits and dots: succeeds iff there is a digit, at
+    most one dot, and the value is finite -/
+def asFloat (tok body : Bytes) : Option Obj :=
+  if body.any isDigit && (body.filter (· == 46)).length ≤ 1 && !floatOverflows (body.takeWhile isDigit) then
+    some (.real tok)
+  else none
+
 /-- `parseNumber`: `none` = not a number (the token is then a keyword or an operator) -/
 def parseNumber (tok : Bytes) : Option Obj :=
-  let body := match tok with
-    | c :: r => if c == 43 || c == 45 then r else tok
-    | [] => []
-  if !(body.all fun c => c == 46 || isDigit c) then none else
-  let dots := (body.filter (· == 46)).length
-  let asFloat : Option Obj :=
-    if body.any isDigit && dots ≤ 1 && !floatOverflows (body.takeWhile isDigit) then some (.real tok) else none
-  if dots == 0 then
+  let body := numBody tok
+  if !(body.all fun c => c == 46 || isDigit c) then none
+  else if (body.filter (· == 46)).length == 0 then
     match parseInt64 tok with
     | some i => some (.int i)
-    | none => asFloat
-  else asFloat
+    | none => asFloat tok body
+  else asFloat tok body
 
 def isNumStart (c : Nat) : Bool := isDigit c || c == 46 || c == 45 || c == 43
 
@@ -425,9 +433,34 @@ def iiFinish (kv : List (Bytes × Obj)) (data : Bytes) (inp : Bytes) : Res (Byte
   | [] => .eof
   | _ => .perr inp
 
+/-- the input after `ID`: one white-space byte is skipped, and for ASCII filters all further
+    white space and comments (`SkipWhiteSpace`) -/
+def afterID (kv : List (Bytes × Obj)) (rest : Bytes) : Bytes :=
+  let rest := match rest with
+    | c :: r => if cSpace c then r else c :: r
+    | [] => []
+  if isASCIIFilter (iiFilter kv) then skipWS rest else rest
+
+/-- the data of an inline image and the `EI` behind it; `rest` = `afterID …` -/
+def imageData (kv : List (Bytes × Obj)) (rest : Bytes) : Res (Bytes × List Obj) :=
+  let length := iiInt kv nmL nmLength
+  if isASCIIFilter (iiFilter kv) && rest.isEmpty then .eof
+  else if length > 0 then
+    if length > Gen.content_maxInlineImageBytes then .perr rest
+    else if rest.length < length.toNat then .eof
+    else
+      match skipWS (rest.drop length.toNat) with
+      | [] => .eof
+      | r => iiFinish kv (rest.take length.toNat) r
+  else
+    match iiLoop 0 0 rest with
+    | .eof => .eof
+    | .capped r => .perr r
+    | .found d r => iiFinish kv d.dropLast r
+
 /-- `readInlineImage` (after the `BI` token) -/
 def readInlineImage (inp : Bytes) : Res (Bytes × List Obj) :=
-  match readDictBody (inp.length + 2) kwID 0 [] inp with
+  match readDictBody (2 * inp.length + 2) kwID 0 [] inp with
   | .eof => .eof
   | .perr r => .perr r
   | .fuel => .fuel
@@ -436,26 +469,7 @@ def readInlineImage (inp : Bytes) : Res (Bytes × List Obj) :=
     let height := iiInt kv nmH nmHeight
     if width ≤ 0 || height ≤ 0 || width > Gen.content_maxInlineImageDim || height > Gen.content_maxInlineImageDim then .perr rest
     else if width * height > Gen.content_maxInlineImagePixels then .perr rest
-    else
-      let length := iiInt kv nmL nmLength
-      let rest := match rest with
-        | c :: r => if cSpace c then r else c :: r
-        | [] => []
-      let ascii := isASCIIFilter (iiFilter kv)
-      let rest := if ascii then skipWS rest else rest
-      if ascii && rest.isEmpty then .eof
-      else if length > 0 then
-        if length > Gen.content_maxInlineImageBytes then .perr rest
-        else if rest.length < length.toNat then .eof
-        else
-          match skipWS (rest.drop length.toNat) with
-          | [] => .eof
-          | r => iiFinish kv (rest.take length.toNat) r
-      else
-        match iiLoop 0 0 rest with
-        | .eof => .eof
-        | .capped r => .perr r
-        | .found d r => iiFinish kv d.dropLast r
+    else imageData kv (afterID kv rest)
 
 /-- the token loop of `Scan` -/
 def scanLoop : Nat → List Frame → List Obj → Bytes → Res (Bytes × List Obj)
